@@ -86,10 +86,15 @@ template <class F> void enqueue(F& f, int ty, int pay);
 
 inline bool throwable(const char* tag) { return std::strcmp(tag, "NT") != 0 && std::strcmp(tag, "EC") != 0; }
 
+template <class F> std::string flag_bits(F& f);
 template <class E, class F>
 void cb(const char* tag, const char* path, int id, E const& e, F& f) {
   EvInfo i = info(e);
   std::printf("%s %s %d e%d p%d w%d [%s]\n", tag, lp(path).c_str(), id, i.ty, i.pay, i.wrapped, obs(f).c_str());
+#ifdef H_FLAGOBS
+  // what is_flag_active answers inside the behaviours of the outermost machine (comment line, read by mon_C17_inside)
+  if (path[0] == 'r' && path[1] == 0) std::printf("#FL %s %d %s\n", tag, id, flag_bits(f).c_str());
+#endif
   int n = cbn()++;
   auto it = plan().find(n);
   if (it == plan().end()) return;
